@@ -119,6 +119,7 @@ func TestGroupMetadata(t *testing.T) {
 	}
 	thorough := ev.Tier() == "thorough"
 	p := getPool()
+	defer recordPoolStats(p)
 	corpus := groupFrames()
 	jobs := make(chan job, 64)
 	go func() {
